@@ -13,7 +13,7 @@ from pyvc.tree import (ATTRVAL as AttrVal, OPT_ATTRVAL as OptAttrVal, SEQ_RAW as
                        FLAGS as Flags)
 from spec.vocab_tree import (parent, contents, idx, depth, is_tag, is_doc, is_navstr, is_comment, is_cdata, is_pi, is_decl,
                              is_doctype, text, name, prefix, namespace, is_xml_flag, next_sibling, previous_sibling, same,
-                             ascii_lower, ns_get, html_ns_map, fake_parent, rattrs, norm, as_str, is_str_val, NS_XHTML, NS_XML)
+                             ascii_lower, ns_get, html_ns_map, fake_parent, rattrs, norm, as_str, is_str_val, ws_tokens, is_list_val, as_list, NS_XHTML, NS_XML)
 from spec.vocab_ir import (sel_is_null, SEL_EMPTY, SEL_ROOT, SEL_DEFAULT, SEL_INDETERMINATE, SEL_SCOPE, SEL_DIR_LTR, SEL_DIR_RTL,
                            SEL_IN_RANGE, SEL_OUT_OF_RANGE, SEL_DEFINED, SEL_PLACEHOLDER_SHOWN, DIR_FLAGS, RANGES)
 
@@ -223,16 +223,6 @@ def sem_nth(m: M, ns: NsMap, ifr: bool, el: Node, nth: SeqSelNth) -> bool:
 @abstract
 def sem_empty(m: M, el: Node) -> bool:
     return _ref.sem_empty(m, el)
-
-
-@abstract
-def sem_ids(m: M, el: Node, ids: SeqStr) -> bool:
-    return _ref.sem_ids(m, el, ids)
-
-
-@abstract
-def sem_classes(m: M, el: Node, classes: SeqStr) -> bool:
-    return _ref.sem_classes(m, el, classes)
 
 
 @abstract
@@ -585,3 +575,34 @@ def week53_region(el: Node) -> bool:
 
 def lenient_attr(v: OptAttrVal) -> bool:
     return v is not None and is_str_val(v) and week53_lenient(as_str(v))
+
+
+# ---------------------------------------------------------------------------------------------- #id and .class (C01.O4)
+
+def all_ids(el: Node, ids: SeqStr, i: int) -> bool:
+    """Every listed id equals the element's id attribute value ('' when absent)."""
+    if i < 0 or i >= len(ids):
+        return True
+    return attr_by_name(el, 'id', '') == ids[i] and all_ids(el, ids, i + 1)
+
+
+def sem_ids(m: M, el: Node, ids: SeqStr) -> bool:
+    return all_ids(el, ids, 0)
+
+
+def class_list(el: Node) -> SeqStr:
+    """The element's classes: the whitespace-separated tokens of a string value, or the items of a list value."""
+    v = attr_by_name(el, 'class', [])
+    if is_list_val(v):
+        return as_list(v)
+    return ws_tokens(as_str(v))
+
+
+def all_classes(cur: SeqStr, classes: SeqStr, i: int) -> bool:
+    if i < 0 or i >= len(classes):
+        return True
+    return classes[i] in cur and all_classes(cur, classes, i + 1)
+
+
+def sem_classes(m: M, el: Node, classes: SeqStr) -> bool:
+    return all_classes(class_list(el), classes, 0)
